@@ -152,7 +152,7 @@ func run(c *hl.Ctx) error {
 	g := &lay.Gen{R: r}
 	var jobs []lay.Job
 	nProg := lay.DevN(c.Pick(500, 8000))
-	weights := []string{"core", "core", "styled", "styled", "styled", "grid", "near", "nested", "nested", "names", "boards", "seq"}
+	weights := []string{"core", "deep", "styled", "deep", "styled", "grid", "near", "nested", "deep", "names", "boards", "styled"}
 	for i := 0; i < nProg; i++ {
 		p := weights[i%len(weights)]
 		src := g.Program(p)
